@@ -145,6 +145,8 @@ func zooFamily(r *hx.Rand, n int, out *hx.Out, _ []string, prop string) {
 						sig = "C05/offsets-invalid-utf8-grapheme-panic"
 					case isHTML && strings.Contains(res.detail, "nil pointer dereference"):
 						sig = "C05/html-offsets-missing-node-metadata"
+					case isHTML && strings.Contains(res.detail, "index out of range") && (len(reBodyTag.FindAll(data, 3)) > 1 || len(reHTMLTag.FindAll(data, 3)) > 1):
+						sig = "C05/html-offsets-repeated-body-tag-panic"
 					}
 				}
 			}
